@@ -38,7 +38,7 @@ func decompressNoContextTakeover(r io.Reader) io.ReadCloser {
 		// Reset never fails, but handle error in case that changes.
 		fr = flate.NewReader(mr)
 	}
-	return &flateReadWrapper{fr}
+	return &flateReadWrapper{fr: fr, src: r}
 }
 
 func isValidCompressionLevel(level int) bool {
@@ -124,7 +124,8 @@ func (w *flateWriteWrapper) Close() error {
 }
 
 type flateReadWrapper struct {
-	fr io.ReadCloser
+	fr  io.ReadCloser
+	src io.Reader // the compressed message
 }
 
 func (r *flateReadWrapper) Read(p []byte) (int, error) {
@@ -137,6 +138,12 @@ func (r *flateReadWrapper) Read(p []byte) (int, error) {
 		// scenarios where the application does not call NextReader() soon after
 		// this final read.
 		r.Close()
+		// The flate reader stops at a final block without looking at what
+		// follows it. Report the end of the message only after the rest of
+		// the message has arrived as well.
+		if _, derr := io.Copy(io.Discard, r.src); derr != nil {
+			err = derr
+		}
 	}
 	return n, err
 }
